@@ -430,8 +430,9 @@ impl TerminalRenderer {
                         }
                     }
                     pos.col += repeats;
-                    // erase if it is more efficient
-                    if repeats > 4 {
+                    // erase if it is more efficient, erased cells only get the background
+                    // color, so it can not be used if face has any attributes (underline ...)
+                    if repeats > 4 && new.face.attrs.is_empty() {
                         // NOTE: erase is not moving cursor
                         term.execute(TerminalCommand::EraseChars(repeats))?;
                     } else {
